@@ -22,8 +22,21 @@ pub mod c18;
 pub mod c19;
 pub mod c20;
 pub mod common;
+#[cfg(feature = "hfs")]
+pub mod hfs;
 
 pub fn run(id: &str, tier: Tier) -> i32 {
+    #[cfg(feature = "hfs")]
+    {
+        // the hfs build only runs the parts that need the hfs name parser / token lists
+        return match id {
+            "C02" => hfs::c02(tier),
+            "C10" => hfs::c10(tier),
+            "C13" => hfs::c13(tier),
+            _ => machinery(&format!("no hfs variant of {id}")),
+        };
+    }
+    #[allow(unreachable_code)]
     match id {
         "C01" => c01::run(tier),
         "C02" => c02::run(tier),
@@ -55,6 +68,13 @@ pub fn replay(id: &str, path: &str) -> i32 {
     let v: Value = serde_json::from_str(&text).unwrap_or_else(|e| machinery(&format!("{path}: {e}")));
     let case = &v["case"];
     let once = |_: u8| -> Result<(), String> {
+        #[cfg(feature = "hfs")]
+        {
+            // hfs cases are cheap: re-run the hfs part of the property and report its first violation
+            let code = run(id, Tier::Quick);
+            return if code == 0 { Ok(()) } else { Err(format!("the hfs part of {id} reports a violation (details above; case: {})", case)) };
+        }
+        #[allow(unreachable_code)]
         match id {
             "C01" => c01::replay(case),
             "C02" => c02::replay(case),
